@@ -479,6 +479,14 @@ class Exec(Interp):
     def pure_eval(self, text, fr, extra=None):
         if text.startswith('@check '):
             text = text[len('@check '):]
+        if text.startswith('@when '):
+            # '@when COND :: CLAUSE': CLAUSE is only evaluated on paths on which COND can hold (it may name locals that
+            # exist on those paths only); the clause means COND implies CLAUSE
+            cond, body = text[len('@when '):].split(' :: ', 1)
+            c = self.as_goal(self.pure_eval(cond, fr, extra))
+            if not self.ctx.feasible(c):
+                return True
+            return z3.Implies(c, self.as_goal(self.pure_eval(body, fr, extra)))
         node = _parse_expr(text)
         sub = Frame(extra or {}, fr)
         was = self.pure
